@@ -137,17 +137,23 @@ impl Shared {
     /// of crossbeam's `SeqCst` empty check.
     #[inline]
     pub(crate) fn drain_sync(&self, queue: &TaskQueue) {
+        #[cfg(compio_verif)]
+        compio_log::verif::point("exec.drain.load", self as *const Self as u64, 0);
         if self.pending.load(Ordering::Acquire) == 0 {
             return;
         }
 
         let mut drained: usize = 0;
         while let Some(id) = self.sync.pop() {
+            #[cfg(compio_verif)]
+            compio_log::verif::point("exec.drain.popped", slotmap::Key::data(&id).as_ffi(), 0);
             queue.make_hot(id);
             drained += 1;
         }
 
         if drained != 0 {
+            #[cfg(compio_verif)]
+            compio_log::verif::point("exec.drain.sub", self as *const Self as u64, drained as u64);
             self.pending.fetch_sub(drained, Ordering::Release);
         }
     }
@@ -213,6 +219,8 @@ impl Executor {
         self.shared().drain_sync(queue);
 
         for id in queue.iter_hot().take(self.config.max_interval as _) {
+            #[cfg(compio_verif)]
+            compio_log::verif::point("exec.tick.run", slotmap::Key::data(&id).as_ffi(), 0);
             queue.make_cold(id);
             let task = queue.take(id).expect("Task was not reset back");
             let res = unsafe { task.run() };
@@ -246,6 +254,8 @@ impl Executor {
         instrument!(compio_log::Level::TRACE, "Executor::drop");
         trace!("Dropping Executor");
 
+        #[cfg(compio_verif)]
+        compio_log::verif::point("exec.clear", self.ptr.as_ptr() as u64, 0);
         while self.shared().sync.pop().is_some() {}
         unsafe { self.queue().clear() };
     }
@@ -265,6 +275,8 @@ impl Executor {
 impl Drop for Executor {
     fn drop(&mut self) {
         self.clear();
+        #[cfg(compio_verif)]
+        compio_log::verif::point("exec.free_shared", self.ptr.as_ptr() as u64, 0);
         unsafe { drop(Box::from_raw(self.ptr.as_ptr())) };
     }
 }
